@@ -5,10 +5,16 @@ histories / interleavings).  Test part: harness/cmd/c17 built with `-tags verif 
 child process whose race-detector reports and per-request result mismatches become failing inputs.  Data-race freedom
 of the real Go program is decided by the race-detector runs, not by proof.
 
+Fresh-state bursts (harness/cmd/c17/burst.go; scenarios burst-server, burst-client, burst-d2): children that serve nothing
+serially before N goroutines, released by one barrier, make the FIRST uses of newly constructed shared objects; expected
+answers come from a separate serial child process (scenario expect).  A child that dies (fatal error: concurrent map
+writes, panic, unexpected exit code) is a failing input (crash:<kind>:<scenario>:<module>), not a harness error.
+
 harness/cmd/c17/srv_root.go and d2_root.go are srv_v2.go / d2_v2.go for the root module; regenerate them after editing with
   for f in srv d2; do sed -e 's#go-restli/v2/#go-restli/#g' \
       -e 's#common "github.com/PapaCharlie/go-restli/restlidata/generated/com/linkedin/restli/common"#"github.com/PapaCharlie/go-restli/restlidata"#' \
       -e 's/common\\./restlidata./g' -e 's/v2/root/g' -e 's/modV2/modRoot/' -e 's/d2V2/d2Root/' ${f}_v2.go > ${f}_root.go; done && gofmt -w .
+req_v2.go / req_root.go (how a RequiredFields object is constructed in each module) are hand-written, not generated.
 """
 from generic import run_check
 
@@ -31,6 +37,26 @@ def main(tier, seed, replay):
             "only by test: that the real code's accesses are the modelled ones - race-detector runs (go build -race, "
             "GORACE=halt_on_error=0) of N concurrent mixed requests / client calls / resolutions / registry operations under "
             "varying GOMAXPROCS with injected runtime.Gosched() yields, each compared with its serial run",
+            "FIRST USE OF SHARED OBJECTS (state that an object completes lazily when it is first used: an index, a cache, a memoised "
+            "table) is decided ONLY BY TEST, by the fresh-state bursts of harness/cmd/c17/burst.go: the model's footprints describe "
+            "objects that are complete when they are published (Footprint.v: every access to a RequiredFields object, the method "
+            "table, a Handler() copy, a client is a read - required_fields_read_only; lazy_required_index_would_conflict shows the "
+            "model refutes an in-place lazy index, but that the real code has none is what the bursts test).  Shape of a burst: a child "
+            "process that serves NOTHING serially beforehand; R rounds (quick 12, thorough 60), each on newly constructed objects "
+            "(NewServer + Register* + Handler(), the RequiredFields / PathSpec objects of the driver's generated-style records - one "
+            "with 320 required fields, decoded from JSON bodies, query parameters and URL-encoded record parameters -, the resource's "
+            "shared values, a restli.Client with http.Client and resolver, a d2 client and snapshot); per round 1-3 phases (round 0: "
+            "one phase per request template / client operation, the first use of go-restli's package-level objects in the life of the "
+            "process); in a phase N goroutines (quick 8, thorough 16) wait on one closed-channel barrier with their request already "
+            "built and then send it - all the same request in a lead phase, each its own in a mixed phase; GOMAXPROCS 1, 2, 8 (thorough "
+            "1..16).  Verdict per burst: race-detector reports, every answer compared with the answer a SEPARATE serial child process "
+            "gave to the same template (any other answer, e.g. a spurious 4xx/5xx, is burst:wrong-answer:...), and the death of the "
+            "child (crash:...: fatal error: concurrent map writes / read and map write, panic, unexpected exit).  Bounded by N "
+            "goroutines x R rounds x children x what the Go scheduler happens to interleave; the race detector (happens-before, not "
+            "timing) is what makes a single overlap-free round sufficient for an unsynchronised first-use write to be reported.  The "
+            "typeref scenario is itself a first-use burst (the registry is per process and nothing is looked up serially before the "
+            "goroutines start); objects that only a real ZooKeeper connection creates (d2 LazySyncMap loads from the network) are not "
+            "constructed here (C18 covers LazySyncMap)",
             "modelled, not verified: the Go memory model and scheduler; sync.Map and sync.Mutex (Atomic / Locked accesses are "
             "ordered BY DEFINITION of [synced]); net/http (http.Client is one atomic cell; each request owns its *http.Request and "
             "ResponseWriter); the race detector's happens-before analysis",
